@@ -97,3 +97,20 @@ func init() {
 		mutant{Name: "send-direction-not-checked", Prop: "C12", File: "interp/cfg.go", Old: "\t\t\tif isRecvChan(n.child[0].typ) {\n\t\t\t\terr = n.cfgErrorf(\"invalid operation: cannot send to receive-only channel %s\", n.child[0].typ.id())\n\t\t\t\tbreak\n\t\t\t}\n", New: "", Rule: "R12.16", Key: "cfg/case:sendStmt/channel-direction-checked"},
 	)
 }
+
+func init() {
+	addMutants(
+		// D80, D81 reverted
+		mutant{Name: "method-value-keeps-the-receiver-expression", Prop: "C05", File: "interp/run.go", Old: "\t\tif recv != nil {\n\t\t\tr := recv(f)\n\t\t\tfor r.Kind() == reflect.Ptr {\n\t\t\t\tr = r.Elem()\n\t\t\t}\n\t\t\tc := reflect.New(r.Type()).Elem()\n\t\t\tc.Set(r)\n\t\t\tnod.recv = &receiver{val: c}\n\t\t}\n", New: "\t\t_ = recv\n", Rule: "R05.11", Key: "getMethod/closure#1/receiver-bound-at-evaluation"},
+		mutant{Name: "deferred-function-value-read-when-it-runs", Prop: "C06", File: "interp/run.go", Old: "\t\t\t} else {\n\t\t\t\tval[0] = fixArg(value(f))\n\t\t\t}\n", New: "\t\t\t} else {\n\t\t\t\tval[0] = value(f)\n\t\t\t}\n", Rule: "R06.16", Key: "call/deferred-record"},
+	)
+}
+
+func init() {
+	addMutants(
+		// D81b, D82, D83 reverted
+		mutant{Name: "deferred-compiled-function-value-read-when-it-runs", Prop: "C06", File: "interp/run.go", Old: "\t\t\tval[0] = fixArg(value(f)) // The function value is fixed when the defer statement executes.\n", New: "\t\t\tval[0] = value(f)\n", Rule: "R06.16", Key: "callBin/deferred-record"},
+		mutant{Name: "variadic-position-typed-by-the-slice", Prop: "C07", File: "interp/run.go", Old: "\t\t\t\tif n.action != aCallSlice {\n\t\t\t\t\t// The argument is an element of the variadic parameter.\n\t\t\t\t\tdefType = defType.Elem()\n\t\t\t\t}\n", New: "", Rule: "R07.18", Key: "callBin/variadic-position-type#2:defType"},
+		mutant{Name: "map-entry-of-a-multiple-assignment-set-on-its-temporary", Prop: "C04", File: "interp/run.go", Old: "\tif isMapEntry(n) {\n\t\tm, k := genValue(n.child[0]), genValue(n.child[1])\n\t\treturn func(f *frame, v reflect.Value) { m(f).SetMapIndex(k(f), v) }\n\t}\n", New: "", Rule: "R04.15", Key: "assignFromCall/map-entry-set-in-its-map"},
+	)
+}
